@@ -455,12 +455,16 @@ def run_unit(pid, jobs, tier, seed=0, only=None):
     res = UnitResult()
     benign = parse_benign()
     known = parse_known()
-    budget = threading.Semaphore(int(os.environ.get("VERIF_MEM_SLOTS", "44")))   # GB
+    total = int(os.environ.get("VERIF_MEM_SLOTS", "44"))   # GB
+    state = {"free": total}
+    cv = threading.Condition()
 
     def one(job):
-        n = max(1, int(job.mem_gb))
-        for _ in range(n):
-            budget.acquire()
+        n = min(total, max(1, int(job.mem_gb)))
+        with cv:                               # all-or-nothing: acquiring slot by slot deadlocks when several jobs hold a part each
+            while state["free"] < n:
+                cv.wait()
+            state["free"] -= n
         try:
             return job, pipeline(job), None
         except Undecided as e:
@@ -468,8 +472,9 @@ def run_unit(pid, jobs, tier, seed=0, only=None):
         except Exception as e:   # never turn a driver bug into a verdict
             return job, None, "driver error: %r" % (e,)
         finally:
-            for _ in range(n):
-                budget.release()
+            with cv:
+                state["free"] += n
+                cv.notify_all()
 
     with ThreadPoolExecutor(max_workers=int(os.environ.get("VERIF_JOBS", "14"))) as ex:
         results = list(ex.map(one, jobs))
